@@ -823,7 +823,9 @@ class PDFPageInterpreter:
     def _initial_color(cs: PDFColorSpace) -> Optional[Color]:
         """The colour a colour space starts with (ISO 32000-1 Table 74, CS)."""
         n = cs.ncomponents
-        if cs.name == "Pattern" or not isinstance(n, int) or n < 1:
+        if cs.name == "Pattern" or not isinstance(n, int) or n < 1 or n > 32:
+            # 32 is the largest number of components of any colour space
+            # (DeviceN); a damaged /N must not be turned into a tuple
             return None
         if cs.name == "DeviceCMYK":
             return (0.0, 0.0, 0.0, 1.0)
